@@ -438,12 +438,21 @@ func (a *arrayObject) _defineIdxProperty(idx uint32, desc PropertyDescriptor, th
 		}
 		if a.expand(idx) {
 			a.values[idx] = prop
-			a.objCount++
+			if existing == nil {
+				a.objCount++
+			} else if _, ok := existing.(*valueProperty); ok {
+				a.propValueCount--
+			}
 			if _, ok := prop.(*valueProperty); ok {
 				a.propValueCount++
 			}
 		} else {
-			a.val.self.(*sparseArrayObject).add(idx, prop)
+			// switched to sparse storage
+			sa := a.val.self.(*sparseArrayObject)
+			sa.add(idx, prop)
+			if _, ok := prop.(*valueProperty); ok {
+				sa.propValueCount++
+			}
 		}
 	}
 	return ok
